@@ -138,6 +138,8 @@ def run(ctx):
     plan = [("dep", 3 * n, {}), ("dep", n, {"VRT_STRATEGY": "pct"}), ("graph", n, {}), ("pool", n, {}),
             ("pool", n // 2, {"VRT_STRATEGY": "pct"}), ("samedata", n // 3, {}), ("inject", n // 3, {})]
     for mode, cnt, env in plan:
+        if len([k for k, _ in ctx.failing if k not in known]) >= 5:
+            break       # five concrete failing inputs are enough for the report
         runs = ctx.econc(exe, drv, [mode], seed0, cnt, env=env)
         _classify(ctx, mode, env, runs, dist, distinct, samples)
         if len([k for k, _ in ctx.failing if k not in known]) + len(ctx.broken) > 8:
